@@ -37,6 +37,28 @@ type readWriter struct {
 func (r *readWriter) Read(p []byte) (n int, err error)  { return r.r.Read(p) }
 func (r *readWriter) Write(p []byte) (n int, err error) { return r.w.Write(p) }
 
+// sshSessionMain runs the command line of an SSH session (exec request) of
+// the built-in SSH listeners. The only thing such a session may do is speak
+// the rsync daemon protocol against the configured modules ("rsync --server
+// --daemon ."): command-mode servers on arbitrary paths, client-mode
+// transfers and remote-shell options (-e) are refused.
+func sshSessionMain(ctx context.Context, osenv *rsyncos.Env, args []string, cfg *rsyncdconfig.Config) (*rsyncstats.TransferStats, error) {
+	if len(args) == 0 {
+		return nil, fmt.Errorf("empty command line")
+	}
+	pc := rsyncopts.NewContext(rsyncopts.NewOptionsWithGokrazyDefaults(osenv))
+	// The command line comes from the network: it must not be able to
+	// terminate the listener (--help, --version, …).
+	pc.Options.DisallowExit()
+	if err := pc.ParseArguments(osenv, args[1:]); err != nil {
+		return nil, err
+	}
+	if !pc.Options.Daemon() || !pc.Options.Server() {
+		return nil, fmt.Errorf("only the rsync daemon protocol (rsync --server --daemon .) is available on this listener")
+	}
+	return Main(ctx, osenv, args, cfg)
+}
+
 func Main(ctx context.Context, osenv *rsyncos.Env, args []string, cfg *rsyncdconfig.Config) (*rsyncstats.TransferStats, error) {
 	osenv.Logf("Main(osenv=%v, args=%q)", osenv, args)
 	pc := rsyncopts.NewContext(rsyncopts.NewOptionsWithGokrazyDefaults(osenv))
@@ -287,7 +309,7 @@ func Main(ctx context.Context, osenv *rsyncos.Env, args []string, cfg *rsyncdcon
 				// under the limit of policy layers per process.
 				DontRestrict: true,
 			}
-			_, err := Main(ctx, osenv, args, cfg)
+			_, err := sshSessionMain(ctx, osenv, args, cfg)
 			return err
 		})
 	}
@@ -304,7 +326,7 @@ func Main(ctx context.Context, osenv *rsyncos.Env, args []string, cfg *rsyncdcon
 				// under the limit of policy layers per process.
 				DontRestrict: true,
 			}
-			_, err := Main(ctx, osenv, args, cfg)
+			_, err := sshSessionMain(ctx, osenv, args, cfg)
 			return err
 		})
 	}
